@@ -191,14 +191,19 @@ class HelicityModel:
         for name in renames:
             if name not in symbol_names:
                 _LOGGER.warning(f"There is no symbol with name {name}")
-        existing_symbols = {s.name: s for s in symbols if s.name not in renames}
+        ordered = sorted(
+            symbols, key=lambda s: (s.name, str(sorted(s.assumptions0.items())))
+        )
+        targets: dict[str, sp.Symbol] = {}
+        for s in ordered:  # an existing symbol of the new name is reused
+            if s.name not in renames:
+                targets.setdefault(s.name, s)
+        for s in ordered:  # else one new symbol per new name (first source's assumptions)
+            if s.name in renames:
+                new_name = renames[s.name]
+                targets.setdefault(new_name, sp.Symbol(new_name, **s.assumptions0))
         symbol_mapping = {
-            s: existing_symbols.get(
-                renames[s.name], sp.Symbol(renames[s.name], **s.assumptions0)
-            )
-            if s.name in renames
-            else s
-            for s in symbols
+            s: targets[renames[s.name]] if s.name in renames else s for s in symbols
         }
         return attrs.evolve(
             self,
